@@ -19,8 +19,16 @@ Reading of the clauses in the model:
 * "went through crossover or mutation ⇒ invalid"     → `*_touched_invalid`: about the object that ENDS UP
   in the offspring list, i.e. the one the operator RETURNED (not the one passed to it);
 * "valid fitness ⇒ genotype and fitness of an input" → `*_valid_is_parent_copy`.
+
+"Every registered mate/mutate operator pair": the second half of the file removes the `OpContract` hypothesis for
+the library's own operators.  `lifted_inplace_meets_contract` shows once that EVERY in-place genome operator, lifted
+to a heap transformer, meets the contract; `staticLimit_meets_contract` that the `gp.staticLimit` decorator (which is
+not in place) preserves it; `library_ops_meet_contract` instantiates them for every operator model of C09
+(`Core/CrossMut.lean`), C10 (`Core/RealOps.lean`) and C11 (`Core/GpTree.lean`); `varAnd_library_ops` /
+`varOr_library_ops` are the composed statements: all clauses, for every population, every decision tape, every
+library crossover and mutation (plain or decorated) and every operator tape, with no hypothesis on the operators.
 -/
-import DeapModel.Lemmas.C02
+import DeapModel.Lemmas.C02Ops
 
 namespace C02
 open Variation
@@ -422,5 +430,179 @@ theorem decodeOr_length (cxpb mutpb : Float) : ∀ (lam : Nat) (draws : List Dra
       simp only [List.mem_cons, reduceCtorEq, false_or] at hm
       exact hd _ _ hm
     · simp at h
+
+/-! ## The library's own operators: no contract hypothesis left -/
+
+/-- Every lifting of an in-place genome operator pair — a function from the contents of the argument sequences
+(and a tape) to their contents after the call, written back into the very argument objects — meets `OpContract`. -/
+theorem lifted_inplace_meets_contract {τ : Type} (f : GOp2 τ) (g : GOp1 τ) : OpContract (liftOps f g) :=
+  Variation.lifted_inplace_meets_contract f g
+
+/-- … and such an operator allocates nothing, returns its arguments, and changes no fitness at all. -/
+theorem lifted_inplace_is_inplace {τ : Type} (f : GOp2 τ) (g : GOp1 τ) (t : τ) (h : Heap) (n a b o : Nat) :
+    ((liftOps f g).mate t h n a b).next = n ∧ ((liftOps f g).mate t h n a b).fst = a ∧
+    ((liftOps f g).mate t h n a b).snd = b ∧ (((liftOps f g).mate t h n a b).heap o).fit = (h o).fit ∧
+    ((liftOps f g).mutate t h n a).next = n ∧ ((liftOps f g).mutate t h n a).ret = a ∧
+    (((liftOps f g).mutate t h n a).heap o).fit = (h o).fit :=
+  ⟨rfl, rfl, rfl, liftMate_fit f t h n a b o, rfl, rfl, liftMutate_fit g t h n a o⟩
+
+/-- `gp.staticLimit` around ANY operator pair that meets the contract meets it again, although it hands back new
+copies of kept parent copies (for every measurement and limit, every way `random.choice` answers, and whether the
+crossover, the mutation or both are decorated). -/
+theorem staticLimit_meets_contract (hc : OpContract ops) (Lm Lu : Limit σ) :
+    OpContract (⟨limitMate Lm ops.mate, ops.mutate⟩ : Ops σ) ∧
+    OpContract (⟨ops.mate, limitMutate Lu ops.mutate⟩ : Ops σ) ∧
+    OpContract (⟨limitMate Lm ops.mate, limitMutate Lu ops.mutate⟩ : Ops σ) :=
+  ⟨OpContract.of_halves (limitMate_contract Lm hc.mateHalf) hc.mutHalf,
+   OpContract.of_halves hc.mateHalf (limitMutate_contract Lu hc.mutHalf),
+   OpContract.of_halves (limitMate_contract Lm hc.mateHalf) (limitMutate_contract Lu hc.mutHalf)⟩
+
+example : OpContract demoOps := demoOps_contract
+
+/-- What the decorator hands back in place of an over-limit child is a deep copy — genome AND fitness — of one
+of the copies it kept (so it may carry a valid fitness: `varAnd`/`varOr` must delete the fitness of the RETURNED
+object, which is what `*_touched_invalid` states). -/
+theorem staticLimit_replacement_is_kept_copy (L : Limit σ) (keep : List Nat) (t : σ) (h : Heap) (nx x : Nat)
+    (hne : keep ≠ []) (hnew : (limitFix L keep t h nx x).ret ≠ x) :
+    ∃ k ∈ keep, (limitFix L keep t h nx x).heap (limitFix L keep t h nx x).ret = h k :=
+  limitFix_copy L keep t h nx x hne hnew
+
+/-- a limit on the length that `[1, 2, 3]` exceeds; `random.choice` always answers the first kept copy -/
+def demoLimit : Limit Unit := ⟨fun g => decide (2 < g.length), fun t _ => (t, 0)⟩
+
+example : [3] ≠ [] ∧ (limitFix demoLimit [3] () demoHeap 4 0).ret ≠ 0 := by decide
+
+/-- Every library crossover and mutation (all operator models of C09, C10 and C11 listed in `LibMate` / `LibMut`),
+plain or decorated with `gp.staticLimit`, under every coding of floats / trees as heap genomes: `OpContract` holds. -/
+theorem library_ops_meet_contract (v : Views) (p : Lib) : OpContract (p.ops v) := Lib.ops_contract v p
+
+/-- All clauses of the property for `varAnd` with the library's own operators — no hypothesis on the operators:
+for every population, every decision tape, every library crossover and mutation (plain or decorated), every view
+and every operator tape,
+(1) no object that existed before the call (in particular no input individual) is modified,
+(2) exactly `len(population)` offspring are returned,
+(3) every offspring is an object allocated during the call, not an input, and the offspring are pairwise distinct,
+(4) every offspring whose position went through the crossover or the mutation has an invalid fitness,
+(5) every offspring with a valid fitness has exactly the genotype and fitness of the input at its position. -/
+theorem varAnd_library_ops (v : Views) (p : Lib) {t : LTape} {s : St} {pop : List Nat} {mateD mutD : List Bool}
+    {r : Res LTape} (hpop : ∀ q ∈ pop, q < s.next) (h : varAnd (p.ops v) t s pop mateD mutD = some r) :
+    (∀ o, o < s.next → r.st.heap o = s.heap o) ∧
+    r.off.length = pop.length ∧
+    (∀ o ∈ r.off, s.next ≤ o ∧ o < r.st.next ∧ o ∉ pop) ∧ r.off.Nodup ∧
+    (∀ (k o : Nat), r.off[k]? = some o → (wasMated mateD pop.length k = true ∨ mutD[k]? = some true) →
+      (r.st.heap o).fit = none) ∧
+    (∀ (k o : Nat) (f : List Int), r.off[k]? = some o → (r.st.heap o).fit = some f →
+      ∃ q, pop[k]? = some q ∧ r.st.heap o = s.heap q ∧ r.st.heap o = r.st.heap q) := by
+  have hc := library_ops_meet_contract v p
+  exact ⟨varAnd_parents_unchanged hc h, varAnd_count hc h,
+    fun o ho => ⟨(varAnd_fresh hc h o ho).1, (varAnd_fresh hc h o ho).2, varAnd_not_input hc hpop h o ho⟩,
+    varAnd_distinct hc h,
+    fun k o ho ht => varAnd_touched_invalid hc hpop h k o ho ht,
+    fun k o f ho hf => varAnd_valid_is_parent_copy hc hpop h k o f ho hf⟩
+
+/-- … and the call always returns: with one decision per visited pair and one per index there is a result. -/
+theorem varAnd_library_ops_total (v : Views) (p : Lib) (t : LTape) (s : St) (pop : List Nat) (mateD mutD : List Bool)
+    (hm : mateD.length = pop.length / 2) (hu : mutD.length = pop.length) :
+    (varAnd (p.ops v) t s pop mateD mutD).isSome = true :=
+  varAnd_isSome t s pop mateD mutD hm hu (library_ops_meet_contract v p)
+
+/-- a view of trees that stores nothing (the examples use integer operators) -/
+def demoViews : Views := { tree := ⟨fun _ => [], fun _ => []⟩ }
+
+/-- one-point crossover and inversion, the crossover decorated with a length limit -/
+def demoLib : Lib := { mate := .cxOnePoint, mutate := .mutInversion }
+def demoLibLimit : Lib := { mate := .cxMessyOnePoint, mutate := .mutInversion, mateLimit := some (.len, 3) }
+
+/-- `cxOnePoint` draws the cut point 1, `mutInversion` the indices 0 and 2 -/
+def demoTape : LTape := { draws := [.int 1, .int 0, .int 2] }
+
+example : (∀ q ∈ [0, 1, 2], q < demoSt.next) ∧
+    (varAnd (demoLib.ops demoViews) demoTape demoSt [0, 1, 2] [true] [false, true, false]).isSome = true :=
+  ⟨by decide, varAnd_library_ops_total demoViews demoLib demoTape demoSt [0, 1, 2] [true] [false, true, false] rfl rfl⟩
+
+example : [true].length = [0, 1, 2].length / 2 ∧ [false, true, false].length = [0, 1, 2].length := by decide
+
+/-- the composed model computes: pair (0, 1) crossed at 1, offspring 1 then inverted over [0, 2), input 2 copied -/
+example : (varAnd (demoLib.ops demoViews) demoTape demoSt [0, 1, 2] [true] [false, true, false]).map
+    (fun r => (r.off, r.off.map r.st.heap, r.tape.ok, r.tape.draws.length)) =
+    some ([3, 4, 5], [⟨[1, 5, 6], none⟩, ⟨[2, 4, 3], none⟩, ⟨[7, 8, 9], some [30]⟩], true, 0) := by decide
+
+/-- All clauses of the property for `varOr` with the library's own operators (same quantification):
+(1) no pre-existing object is modified, (2) exactly `lambda_` offspring, (3) all allocated during the call, no
+input, pairwise distinct, (4) crossover / mutation branch ⇒ invalid fitness, (5) valid fitness ⇒ genotype and
+fitness of an input individual. -/
+theorem varOr_library_ops (v : Views) (p : Lib) {t : LTape} {s : St} {pop : List Nat} {lam : Nat}
+    {choices : List Choice} {r : Res LTape} (hpop : ∀ q ∈ pop, q < s.next)
+    (h : varOr (p.ops v) t s pop lam choices = some r) :
+    (∀ o, o < s.next → r.st.heap o = s.heap o) ∧
+    r.off.length = lam ∧
+    (∀ o ∈ r.off, s.next ≤ o ∧ o < r.st.next ∧ o ∉ pop) ∧ r.off.Nodup ∧
+    (∀ (k o : Nat), r.off[k]? = some o →
+      ((∃ i j, choices[k]? = some (Choice.cx i j)) ∨ (∃ i, choices[k]? = some (Choice.mutn i))) →
+      (r.st.heap o).fit = none) ∧
+    (∀ (k o : Nat) (f : List Int), r.off[k]? = some o → (r.st.heap o).fit = some f →
+      ∃ q ∈ pop, r.st.heap o = s.heap q ∧ r.st.heap o = r.st.heap q) := by
+  have hc := library_ops_meet_contract v p
+  exact ⟨varOr_parents_unchanged hc hpop h, varOr_count hc hpop h,
+    fun o ho => ⟨(varOr_fresh hc hpop h o ho).1, (varOr_fresh hc hpop h o ho).2, varOr_not_input hc hpop h o ho⟩,
+    varOr_distinct hc hpop h,
+    fun k o ho ht => varOr_touched_invalid hc hpop h k o ho ht,
+    fun k o f ho hf => varOr_valid_is_parent_copy hc hpop h k o f ho hf⟩
+
+theorem varOr_library_ops_total (v : Views) (p : Lib) (t : LTape) (s : St) (pop : List Nat) (lam : Nat)
+    (choices : List Choice) (hlen : choices.length = lam) (hin : ∀ c ∈ choices, c.inRange pop.length) :
+    (varOr (p.ops v) t s pop lam choices).isSome = true :=
+  varOr_isSome t s pop lam choices hlen hin
+
+/-- messy crossover of the copies of inputs 0 and 2 at (0, 0) swaps them whole; the limit `len <= 3` accepts both;
+then a mutation and a reproduction -/
+example : (∀ q ∈ [0, 1, 2], q < demoSt.next) ∧
+    (varOr (demoLibLimit.ops demoViews) { draws := [.int 0, .int 0, .int 1, .int 1] } demoSt [0, 1, 2] 3
+      [Choice.cx 0 2, Choice.mutn 1, Choice.rep 2]).isSome = true :=
+  ⟨by decide, varOr_library_ops_total demoViews demoLibLimit _ demoSt [0, 1, 2] 3 _ rfl (by
+    intro c hc
+    simp only [List.mem_cons, List.not_mem_nil, or_false] at hc
+    rcases hc with rfl | rfl | rfl <;> simp [Choice.inRange])⟩
+
+/-- the decorator at work: the messy crossover at (3, 0) makes the first child `[1,2,3,7,8,9]`, over the limit 3, and
+`random.choice` (draw `1`) replaces it by a NEW copy (oid 7) of the kept copy of the second clone — an object that
+still carries the valid fitness `[30]` until `varOr` deletes the fitness of what was returned -/
+example : (varOr (demoLibLimit.ops demoViews) { draws := [.int 3, .int 0, .int 1] } demoSt [0, 1, 2] 1
+      [Choice.cx 0 2]).map (fun r => (r.off, r.off.map r.st.heap, r.st.next, r.tape.ok)) =
+    some ([7], [⟨[7, 8, 9], none⟩], 8, true) := by decide
+
+/-! ## Undecorated library operators: the offspring are the clones themselves -/
+
+/-- With an undecorated library pair (all of `deap.tools` / `deap.gp` work in place) `varAnd` returns exactly the
+clones it made of the inputs, in order — offspring `k` IS the clone of input `k`, whatever happened to its
+genome — and allocates nothing else. -/
+theorem varAnd_library_inplace_offspring (v : Views) (p : Lib) (hm : p.mateLimit = none) (hu : p.mutLimit = none)
+    {t : LTape} {s : St} {pop : List Nat} {mateD mutD : List Bool} {r : Res LTape}
+    (h : varAnd (p.ops v) t s pop mateD mutD = some r) :
+    r.off = List.range' s.next pop.length ∧ r.st.next = s.next + pop.length :=
+  varAnd_inplace (Lib.inplace v p hm hu) h
+
+example : demoLib.mateLimit = none ∧ demoLib.mutLimit = none ∧
+    (varAnd (demoLib.ops demoViews) demoTape demoSt [0, 1, 2] [true] [false, true, false]).isSome = true :=
+  ⟨rfl, rfl, varAnd_library_ops_total demoViews demoLib demoTape demoSt [0, 1, 2] [true] [false, true, false] rfl rfl⟩
+
+/-- … and offspring `k` of `varOr` is the first clone made in iteration `k`; only clones are allocated (two in a
+crossover iteration — the second one is dropped —, one otherwise). -/
+theorem varOr_library_inplace_offspring (v : Views) (p : Lib) (hm : p.mateLimit = none) (hu : p.mutLimit = none)
+    {t : LTape} {s : St} {pop : List Nat} {lam : Nat} {choices : List Choice} {r : Res LTape}
+    (h : varOr (p.ops v) t s pop lam choices = some r) :
+    r.off = firstClones s.next choices ∧ r.st.next = s.next + totalClones choices :=
+  varOr_inplace (Lib.inplace v p hm hu) h
+
+example : firstClones 3 [Choice.cx 0 2, Choice.mutn 1, Choice.rep 2] = [3, 5, 6] ∧
+    totalClones [Choice.cx 0 2, Choice.mutn 1, Choice.rep 2] = 4 := by decide
+
+example : demoLib.mateLimit = none ∧ demoLib.mutLimit = none ∧
+    (varOr (demoLib.ops demoViews) demoTape demoSt [0, 1, 2] 3
+      [Choice.cx 0 2, Choice.mutn 1, Choice.rep 2]).isSome = true :=
+  ⟨rfl, rfl, varOr_library_ops_total demoViews demoLib _ demoSt [0, 1, 2] 3 _ rfl (by
+    intro c hc
+    simp only [List.mem_cons, List.not_mem_nil, or_false] at hc
+    rcases hc with rfl | rfl | rfl <;> simp [Choice.inRange])⟩
 
 end C02
